@@ -139,8 +139,9 @@ Qed.
 
 (* workers are only ever started by the supervision pass (and at construction) *)
 Theorem only_tick_starts_workers s e :
-  e <> ETick -> length (procs (fst (step s e))) = length (procs s).
+  e <> ETick -> (forall k, e <> ETickClose k) -> length (procs (fst (step s e))) = length (procs s).
 Proof.
+  intros Hne0 Hnk; revert Hne0.
   assert (Hsp : forall s p f, length (procs (set_proc s p f)) = length (procs s)).
   { intros s0 p f. unfold set_proc. cbn. destruct (p <? 0); [reflexivity|apply length_upd_nth]. }
   assert (Hdl : forall s p sg l, length (procs (deliver s p sg l)) = length (procs s)).
@@ -201,7 +202,7 @@ Proof.
         assert (Ha : length (procs a) = length (procs s1)) by (rewrite Hdl, Hsp; reflexivity);
         destruct c; cbn [fst]; [exact Ha|rewrite IH; exact Ha] end. }
     rewrite Hsl; reflexivity.
-  - destruct (pstate _ =? 0); reflexivity.
+  - unfold do_close. destruct (pstate _ =? 0); reflexivity.
   - unfold do_next. destruct (get_job _ j) as [x|]; [|reflexivity].
     destruct (negb (is_imap x)); [reflexivity|].
     destruct (items x); [destruct (okey_eqb _ _)|]; reflexivity.
@@ -279,6 +280,46 @@ Qed.
 
 (* C10 at pool level: in every reachable state of the pool model the slot semaphore
    satisfies 0 <= value <= bound + pending with pending >= 0 *)
+Lemma sem_join_exited s0 : sem (fst (join_exited s0)) = sem s0.
+Proof. unfold join_exited. destruct (filter _ (rev _)); reflexivity. Qed.
+
+Lemma sem_repopulate : forall fuel i cs s2, sem (fst (repopulate fuel i cs s2)) = sem s2.
+Proof.
+  induction fuel as [|f IH]; intros; cbn [repopulate]; [reflexivity|].
+  destruct (negb (pstate s2 =? 0)); [reflexivity|].
+  match goal with |- context [if ?c then Restart.step (rst s2) (now s2) else (rst s2, false)] =>
+    destruct (if c then Restart.step (rst s2) (now s2) else (rst s2, false)) as [r raised] end.
+  destruct raised; [reflexivity|].
+  destruct (avail_index (with_rst s2 r)); [|reflexivity]. rewrite IH. reflexivity.
+Qed.
+
+Lemma sem_do_tick s0 : SInv (sem s0) -> SInv (sem (fst (do_tick s0))).
+Proof.
+  intros H0. unfold do_tick. pose proof (sem_join_exited s0) as Hje.
+  destruct (join_exited s0) as [s1 codes]. cbn [fst] in Hje.
+  pose proof (sem_repopulate (Z.to_nat (nprocs s1 - Z.of_nat (length (wlist s1)))) 0%nat codes s1) as H1.
+  destruct (repopulate _ 0 codes s1) as [s2 r]. cbn [fst] in H1.
+  destruct r; cbn [fst]; try (rewrite H1, Hje; exact H0).
+  unfold release_n. cbn [sem with_sem]. apply sinv_iter_release. rewrite H1, Hje. exact H0.
+Qed.
+
+Lemma sinv_do_close s0 : SInv (sem s0) -> SInv (sem (do_close s0)).
+Proof.
+  intros H. unfold do_close. destruct (pstate s0 =? 0); [|exact H]. cbn [sem with_sem with_pstate].
+  apply (sinv_step _ Clear). exact H.
+Qed.
+
+Lemma sem_do_tick_close s0 k : SInv (sem s0) -> SInv (sem (fst (do_tick_close s0 k))).
+Proof.
+  intros H0. unfold do_tick_close. pose proof (sem_join_exited s0) as Hje. pose proof (sem_do_tick s0 H0) as Ht.
+  destruct (join_exited s0) as [s1 codes]. cbn [fst] in Hje.
+  destruct (Z.to_nat (nprocs s1 - Z.of_nat (length (wlist s1))) <=? k)%nat; [exact Ht|].
+  pose proof (sem_repopulate (S k) 0%nat codes s1) as H1.
+  destruct (repopulate (S k) 0 codes s1) as [s2 r]. cbn [fst] in H1.
+  destruct r; cbn [fst]; try (rewrite H1, Hje; exact H0).
+  unfold release_n. cbn [sem with_sem]. apply sinv_iter_release. apply sinv_do_close. rewrite H1, Hje. exact H0.
+Qed.
+
 Theorem sem_step s e : SInv (sem s) -> SInv (sem (fst (step s e))).
 Proof.
   assert (Hdl : forall s p sg l, sem (deliver s p sg l) = sem s) by reflexivity.
@@ -321,23 +362,7 @@ Proof.
     destruct (ready x); [rewrite Hb; exact H|].
     cbn [sem with_sem]. rewrite Hb. apply (sinv_step _ Release). exact H.
   - (* tick *)
-    change (SInv (sem (fst (do_tick (with_sigs s []))))).
-    assert (H0 : SInv (sem (with_sigs s []))) by exact H. revert H0.
-    generalize (with_sigs s []). intros s0 H0. unfold do_tick.
-    assert (Hje : sem (fst (join_exited s0)) = sem s0).
-    { unfold join_exited. destruct (filter _ (rev _)); reflexivity. }
-    destruct (join_exited s0) as [s1 codes]. cbn [fst] in Hje.
-    assert (Hrp : forall fuel i cs s2, sem (fst (repopulate fuel i cs s2)) = sem s2).
-    { induction fuel as [|f IH]; intros; cbn [repopulate]; [reflexivity|].
-      destruct (negb (pstate s2 =? 0)); [reflexivity|].
-      match goal with |- context [if ?c then Restart.step (rst s2) (now s2) else (rst s2, false)] =>
-        destruct (if c then Restart.step (rst s2) (now s2) else (rst s2, false)) as [r raised] end.
-      destruct raised; [reflexivity|].
-      destruct (avail_index (with_rst s2 r)); [|reflexivity]. rewrite IH. reflexivity. }
-    pose proof (Hrp (Z.to_nat (nprocs s1 - Z.of_nat (length (wlist s1)))) 0%nat codes s1) as H1.
-    destruct (repopulate _ 0 codes s1) as [s2 r]. cbn [fst] in H1.
-    destruct r; cbn [fst]; try (rewrite H1, Hje; exact H0).
-    unfold release_n. cbn [sem with_sem]. apply sinv_iter_release. rewrite H1, Hje. exact H0.
+    apply (sem_do_tick (with_sigs s [])). exact H.
   - (* scan *)
     change (SInv (sem (fst (do_scan (with_sigs s []) lingers)))).
     assert (H0 : SInv (sem (with_sigs s []))) by exact H. revert H0.
@@ -353,11 +378,11 @@ Proof.
   - cbn [sem with_sem with_nprocs]. apply sinv_iter_grow. exact H.
   - unfold do_shrink. destruct (inactive _) as [|w ws]; [exact H|].
     destruct (LaxSem.value _ <? _); [exact H|]. apply sem_shrink_loop. exact H.
-  - destruct (pstate _ =? 0); [|exact H]. cbn [fst sem with_sem with_pstate].
-    apply (sinv_step _ Clear). exact H.
+  - apply (sinv_do_close (with_sigs s [])). exact H.
   - unfold do_next. destruct (get_job _ j) as [x|]; [|exact H].
     destruct (negb (is_imap x)); [exact H|].
     destruct (items x); [destruct (okey_eqb _ _)|]; exact H.
+  - apply (sem_do_tick_close (with_sigs s [])). exact H.
 Qed.
 
 Lemma sem_init_ok c : 0 <= c_n c -> SInv (sem (init c)).
@@ -374,4 +399,49 @@ Proof.
   assert (Hrun : forall tr s, SInv (sem s) -> SInv (sem (fold_left (fun s e => fst (step s e)) tr s))).
   { induction tr0 as [|e tr0 IH]; intros s H; cbn; [exact H|]. apply IH. apply sem_step. exact H. }
   apply Hrun. apply sem_init_ok. exact Hn.
+Qed.
+
+(* ------------------------------------------------------------ close() in the middle of a pass *)
+Lemma repopulate_starts_le : forall fuel i codes s,
+    (length (procs (fst (repopulate fuel i codes s))) <= length (procs s) + fuel)%nat.
+Proof.
+  induction fuel as [|f IH]; intros i codes s; cbn [repopulate]; [cbn; lia|].
+  destruct (negb (pstate s =? 0)); [cbn; lia|].
+  match goal with |- context [if ?c then Restart.step (rst s) (now s) else (rst s, false)] =>
+    destruct (if c then Restart.step (rst s) (now s) else (rst s, false)) as [r raised] end.
+  destruct raised; [cbn; lia|].
+  destruct (avail_index (with_rst s r)) as [ix|]; [|cbn; lia].
+  specialize (IH (S i) codes (start_worker (with_rst s r) ix)).
+  unfold start_worker in IH at 2. cbn [procs with_rst] in IH. rewrite app_length in IH. cbn [length] in IH. lia.
+Qed.
+
+Lemma procs_join_exited s : procs (fst (join_exited s)) = procs s.
+Proof. unfold join_exited. destruct (filter _ (rev _)); reflexivity. Qed.
+
+(* when close() is called from the start-up hook of the (k+1)-th worker a pass starts, the pass
+   starts no further worker: at most k+1 in all *)
+Theorem tick_close_starts_at_most s k :
+  (Z.to_nat (nprocs (fst (join_exited s)) - Z.of_nat (length (wlist (fst (join_exited s))))) > k)%nat ->
+  (length (procs (fst (do_tick_close s k))) <= length (procs s) + S k)%nat.
+Proof.
+  intros Hm. unfold do_tick_close. pose proof (procs_join_exited s) as Hp.
+  destruct (join_exited s) as [s1 codes]. cbn [fst] in *.
+  destruct (Z.to_nat (nprocs s1 - Z.of_nat (length (wlist s1))) <=? k)%nat eqn:E; [apply Nat.leb_le in E; lia|].
+  pose proof (repopulate_starts_le (S k) 0 codes s1) as H1.
+  destruct (repopulate (S k) 0 codes s1) as [s2 r]. cbn [fst] in H1.
+  destruct r; cbn [fst]; try (rewrite <- Hp; exact H1).
+  unfold release_n, do_close. destruct (pstate s2 =? 0); cbn [procs with_sem with_pstate]; rewrite <- Hp; exact H1.
+Qed.
+
+(* ... and the pool is closed afterwards if that hook ran *)
+Theorem tick_close_closes s k s' :
+  do_tick_close s k = (s', RNone) ->
+  (Z.to_nat (nprocs (fst (join_exited s)) - Z.of_nat (length (wlist (fst (join_exited s))))) > k)%nat ->
+  pstate s' <> 0.
+Proof.
+  unfold do_tick_close. destruct (join_exited s) as [s1 codes]. cbn [fst].
+  destruct (Z.to_nat (nprocs s1 - Z.of_nat (length (wlist s1))) <=? k)%nat eqn:E; [intros _ H; apply Nat.leb_le in E; lia|].
+  destruct (repopulate (S k) 0 codes s1) as [s2 r]. destruct r; try discriminate.
+  intros H _. inversion H; subst s'. unfold release_n, do_close.
+  destruct (pstate s2 =? 0) eqn:Ep; cbn [pstate with_sem with_pstate]; lia.
 Qed.
